@@ -15,6 +15,8 @@ def build(j):
         return [build(x) for x in j["v"]]
     if t == "dict":
         return {build(k): build(v) for k, v in j["v"]}
+    if t == "kdict":
+        return {k: build(v) for k, v in j["v"].items()}
     if t == "rec":
         mod, cls = j["cls"].rsplit(".", 1)
         C = getattr(importlib.import_module(mod), cls)
